@@ -288,7 +288,7 @@ def decl_models(prog, dw_holder):
     def fatal(it, a, e): raise Terminal('fatal', cmodel.fmt_of(it, a, 0))
     return {'staticassert': staticassert, 'attr': attr, 'declspecs': declspecs, 'declarator': declarator, 'consume': consume,
             'expect': expect, 'scopegetdecl': scopeget, 'scopeputdecl': scopeput, 'parseinit': parseinit, 'emitdata': emitdata,
-            'funcinit': funcinit, 'mkfunc': mkfunc, 'emitfunc': emitfunc, 'stmt': noop, 'funchlt': noop, 'delfunc': noop,
+            'funcinit': funcinit, 'mkfunc': mkfunc, 'emitfunc': emitfunc, 'stmt': noop, 'funcbody': noop, 'funchlt': noop, 'delfunc': noop,
             'delscope': delscope, 'error': error, 'fatal': fatal, 'funcexpr': noop}
 
 
